@@ -174,8 +174,7 @@ def drop_condition(ctx, b, o):
     return dnf
 
 
-def rule_decision_shape(ctx):
-    R = "C20/decision-shape"
+def rule_decision_shape(ctx, R="C20/decision-shape"):
     b = ctx.body(R, FTS)
     if b is None:
         return
